@@ -56,7 +56,7 @@ Fixpoint nodup_str (l : list string) : bool :=
 
 Definition file_wf (s : schema) (i : nat) : bool :=
   let f := getf s i in
-  forallb (fun mj => (snd mj <? length s) && negb (snd mj =? i)) (f_imports f) &&
+  forallb (fun mj => (snd mj <? length s) && negb (snd mj =? i) && negb (String.eqb (fst mj) "")) (f_imports f) &&
   nodup_str (map fst (f_imports f)) &&
   refs_wf s i [] (flat_file f).
 
